@@ -117,8 +117,10 @@ def c10_2(rep, ix, R="C10.2"):
             for c__ in ast.iter_child_nodes(n_):
                 par_[id(c__)] = n_
         uses = [n_ for n_ in ast.walk(hn) if isinstance(n_, ast.Name) and n_.id == hp[0] and isinstance(n_.ctx, ast.Load)]
-        return bool(uses) and all(isinstance(par_.get(id(x_)), ast.Call) and x_ in par_[id(x_)].args and u(par_[id(x_)].func).startswith(("os.path.", "posixpath.", "ntpath.")) and
-                                  u(par_[id(x_)].func).split(".")[-1] in PATH_ONLY for x_ in uses)
+        # ... or hands it, unmodified, to the stream constructor (a helper that opens the file and tells its directory)
+        return bool(uses) and all(isinstance(par_.get(id(x_)), ast.Call) and x_ in par_[id(x_)].args and (
+            (u(par_[id(x_)].func).startswith(("os.path.", "posixpath.", "ntpath.")) and u(par_[id(x_)].func).split(".")[-1] in PATH_ONLY) or
+            (u(par_[id(x_)].func).split(".")[-1] in ("FileStream", "InputStream") and par_[id(x_)].args[0] is x_)) for x_ in uses)
     for q in sorted({"listener.parse", "__init__.load", "__init__.loads"} | {x for x in pipelines if not ix.funcs[x].cls}):
         if q not in ix.funcs:
             continue
